@@ -290,13 +290,24 @@ class NgramCase(Case):
         c.user_dict = None
         if tape.chance("ng.userdict", 1, 3):
             c.user_dict = {f"w{i}": i for i in range(vocab)}
-        c.desc.update(params=dict(c.params), user_token_dictionary=c.user_dict is not None, pool=len(c.pool), ntrain=ntrain)
+        c.user_ngrams = None
+        if tape.chance("ng.userngrams", 1, 5):
+            k = c.params["ngram_size"]
+            if k == 1:
+                c.user_ngrams = {f"w{i}": i for i in range(vocab)}
+            else:
+                c.user_ngrams = {tuple(f"w{(i + j) % vocab}" for j in range(k)): i for i in range(vocab)}
+        c.desc.update(params=dict(c.params), user_token_dictionary=c.user_dict is not None,
+                      user_ngram_dictionary=c.user_ngrams is not None, pool=len(c.pool), ntrain=ntrain)
         return c
 
     def param_objects(self):
+        d = {}
         if self.user_dict is not None:
-            return {"token_dictionary": dict(self.user_dict)}
-        return {}
+            d["token_dictionary"] = dict(self.user_dict)
+        if self.user_ngrams is not None:
+            d["ngram_dictionary"] = dict(self.user_ngrams)
+        return d
 
 
 class SkipgramCase(Case):
@@ -315,13 +326,17 @@ class SkipgramCase(Case):
         c.params = {"window_radius": tape.choice("sg.radius", [1, 2, 4]),
                     "kernel_function": tape.choice("sg.kernel", ["flat", "harmonic"])}
         c.user_dict = {f"w{i}": i for i in range(vocab)} if tape.chance("sg.userdict", 1, 3) else None
-        c.desc.update(params=dict(c.params), user_token_dictionary=c.user_dict is not None, pool=len(c.pool), ntrain=ntrain)
+        c.ignored = {"w0"} if (c.user_dict is None and tape.chance("sg.ignored", 1, 4)) else None
+        c.desc.update(params=dict(c.params), user_token_dictionary=c.user_dict is not None, pool=len(c.pool), ntrain=ntrain,
+                      ignored_tokens=sorted(c.ignored) if c.ignored else None)
         return c
 
     def param_objects(self):
         d = {"window_args": {}, "kernel_args": {}}
         if self.user_dict is not None:
             d["token_dictionary"] = dict(self.user_dict)
+        if self.ignored is not None:
+            d["ignored_tokens"] = set(self.ignored)
         return d
 
 
@@ -913,6 +928,7 @@ class CoocCase(Case):
         c.kargs = {"normalize": True} if (kind != "multiset" and tape.chance("co.kargs", 1, 4)) else None
         c.excluded = {"w0"} if tape.chance("co.excluded", 1, 5) else None
         c.multi = tape.between("co.multi", 1, 2) if kind == "multiset" else 1
+        c.mixw = [tape.choice("co.mixw", [1.0, 2.0, 0.5])] if tape.chance("co.mix", 1, 4) else None
         c.desc.update(params=dict(c.params), user_token_dictionary=c.user_dict is not None, kernel_args=c.kargs,
                       excluded_tokens=sorted(c.excluded) if c.excluded else None, pool=len(docs), ntrain=len(c.train_ids))
         return c
@@ -925,6 +941,8 @@ class CoocCase(Case):
             d["kernel_args"] = dict(self.kargs)
         if self.excluded is not None:
             d["excluded_tokens"] = set(self.excluded)
+        if self.mixw is not None:
+            d["mix_weights"] = np.asarray(self.mixw, dtype=np.float64)
         return d
 
     def build(self, ids, for_fit=False, invalid_at=None, invalid_kind=None):
